@@ -161,6 +161,17 @@ def main(argv=None):
     if (open_ or unsupported or missing or P.get('always_standin') or a.tier != 'quick') and P.get('standin'):
         bounded = run_standin(P, prop, a.repo, a.tier, seed)
         for b in bounded:
+            # findings of a stand-in that are identified by a site id: known ones are reported as such, others are violations
+            for fd in b.get('findings') or []:
+                k = next((k for k in known if k['property'] == prop and re.fullmatch(k['obligation'], 'standin:' + fd['id'])), None)
+                if k:
+                    known_hits.append((k, dict(name='standin:' + fd['id'], status='refuted', model=fd.get('summary', ''))))
+                else:
+                    h = hashlib.sha1(fd['id'].encode()).hexdigest()[:10]
+                    path = os.path.join(HERE, 'out', 'replay', f'{prop}-standin-{h}.json')
+                    json.dump(dict(property=prop, obligation='bounded stand-in finding ' + fd['id'], witness=fd, reproduced=True, replay_cmd=f'./check {prop}'), open(path, 'w'), indent=1, default=str)
+                    violations.append((dict(name='bounded stand-in finding ' + fd['id'], status='refuted', model=fd.get('summary', ''), function=''),
+                                       dict(path=path, reproduced=True, summary=fd.get('summary', ''))))
             if b.get('violation'):
                 h = hashlib.sha1((b['name'] + json.dumps(b.get('witness', ''), default=str)).encode()).hexdigest()[:10]
                 b['path'] = os.path.join(HERE, 'out', 'replay', f'{prop}-standin-{h}.json')
